@@ -271,6 +271,14 @@ func (idx *IVFIndex) Add(vector VectorNode) error {
 	}
 
 	// Find the nearest centroid (call utility directly since we already hold write lock)
+	// Re-adding an ID that is still soft-deleted (update = remove + add): purge the
+	// pending deletions first, otherwise the stale mark would hide the new vector.
+	if idx.deletedNodes.Contains(vector.ID()) {
+		if err := idx.flushLocked(); err != nil {
+			return err
+		}
+	}
+
 	nearestCentroidIdx := FindNearestCentroidIndex(vector.Vector(), idx.centroids, idx.distance)
 
 	// Add vector to the corresponding inverted list
@@ -362,6 +370,12 @@ func (idx *IVFIndex) Remove(vector VectorNode) error {
 func (idx *IVFIndex) Flush() error {
 	idx.mu.Lock()
 	defer idx.mu.Unlock()
+
+	return idx.flushLocked()
+}
+
+// flushLocked is Flush without locking. The caller MUST hold the write lock.
+func (idx *IVFIndex) flushLocked() error {
 
 	// Quick exit if nothing to flush
 	deletedCount := int(idx.deletedNodes.GetCardinality())
